@@ -11,8 +11,10 @@ import (
 
 func y(site string) { simhook.Yield(site) }
 
-// ob lets the harness observe shared state right after a mutating atomic operation.
-func ob() { simhook.Observe() }
+// ob lets the harness observe shared state right after a mutating atomic operation, and is a
+// scheduling point: a goroutine can lose the processor right after it has PUBLISHED a value and
+// before the plain writes that follow (an early-published "done" flag is only visible that way).
+func ob() { simhook.Observe(); simhook.Yield("atomic.after") }
 
 // Bool wraps atomic.Bool.
 type Bool struct{ v ratomic.Bool }
